@@ -28,6 +28,12 @@ def _walk(o, stack, out):
     if o is None or isinstance(o, (bool, int, str, bytes)):
         out.append(repr(o))
         return
+    if hasattr(o, 'cache_info') and hasattr(o, '__wrapped__'):
+        try:
+            out.append('<lru %d>' % o.cache_info().currsize)     # memoised functions are library state too (size only: keys are not reachable)
+        except Exception:
+            pass
+        return
     if isinstance(o, _SKIP_TYPES):
         return
     mod = getattr(type(o), '__module__', '')
@@ -170,7 +176,8 @@ def _run_event(ev):
 def expand(task):
     """runs in a fresh fork of the pristine process: replay `history`, then fork once per event of `menu`.
     returns (state hash after history, [(event index, result, problem, state hash after event)], replay problems)"""
-    history, menu, expected = task
+    history, menu, expected = task[:3]
+    want_hash = task[3] if len(task) > 3 else None      # names of events whose successor state must be identified (None = all)
     problems = []
     for ev in history:
         res, prob = run_event(ev)
@@ -209,7 +216,7 @@ def expand(task):
             try:
                 os.close(r)
                 res, prob = run_event(ev)
-                data = pickle.dumps((res, prob, state_hash()))
+                data = pickle.dumps((res, prob, state_hash() if (want_hash is None or ev[0] in want_hash) else None))
                 view = memoryview(data)
                 while view:
                     n = os.write(w, view[:1 << 16])
